@@ -82,6 +82,24 @@ func (e *c07env) roster(r, list string) *onet.Roster {
 		}
 		return ro
 	}
+	if list == "3" || list == "4" {
+		// the full list plus something the descriptions never use that comes without its key: one more
+		// identity at the end (3), or a service identity of the last member (4)
+		full := e.roster(r, "1")
+		ro := &onet.Roster{ID: full.ID, Aggregate: full.Aggregate}
+		for _, si := range full.List {
+			cp := *si
+			ro.List = append(ro.List, &cp)
+		}
+		if list == "3" {
+			ro.List = append(ro.List, &network.ServerIdentity{Address: "tls://10.9.9.9:7770", Description: "no key"})
+		} else {
+			last := ro.List[len(ro.List)-1]
+			last.ServiceIdentities = append(append([]network.ServiceIdentity{}, last.ServiceIdentities...),
+				network.ServiceIdentity{Name: "keyless", Suite: "Ed25519"})
+		}
+		return ro
+	}
 	if list == "1" {
 		src := e.rosters["roK"]
 		if r != "roZ" {
@@ -573,7 +591,7 @@ func c07gen(c *h.Ctx, yield func(*h.Case)) {
 			}
 		}
 	}
-	ros := []string{"-", "roR 1", "roR 0", "roR 2", "roK 1", "roK 2", "roX 1", "roZ 1", "roZ 0"}
+	ros := []string{"-", "roR 1", "roR 0", "roR 2", "roR 3", "roR 4", "roK 1", "roK 2", "roK 3", "roX 1", "roZ 1", "roZ 0"}
 	for _, tm := range append([]string{"-"}, tms...) {
 		for _, ro := range ros {
 			// the interesting part of the product: descriptions of R with every roster, everything else with two rosters
@@ -587,7 +605,7 @@ func c07gen(c *h.Ctx, yield func(*h.Case)) {
 	}
 	for _, ro := range []string{"roK", "roR", "roX", "roZ"} {
 		envs = append(envs, "c07 reqroster "+ro)
-		envs = append(envs, "c07 sendroster "+ro+" 1", "c07 sendroster "+ro+" 0", "c07 sendroster "+ro+" 2")
+		envs = append(envs, "c07 sendroster "+ro+" 1", "c07 sendroster "+ro+" 0", "c07 sendroster "+ro+" 2", "c07 sendroster "+ro+" 3", "c07 sendroster "+ro+" 4")
 	}
 	envs = append(envs, "c07 config 1", "c07 config 0")
 	mode := func(i int) string {
@@ -604,7 +622,8 @@ func c07gen(c *h.Ctx, yield func(*h.Case)) {
 		{"c07 proto none member 1"}, {"c07 proto freshK none 1"}, {"c07 resptree R roR empty roR 1"},
 		{"c07 reqroster roK"}, {"c07 sendroster roR 1", "c07 sendroster roR 1", "c07 treemarshal R roR good"},
 		{"c07 resptree K roK unksrv roK 1"}, {"c07 treemarshal R roR good", "c07 sendroster roR 1"},
-		{"c07 resptree K roK other roK 1"}, {"c07 resptree R roR good roR 2"}, {"c07 treemarshal R roX good", "c07 sendroster roX 2"},
+		{"c07 resptree K roK other roK 1"}, {"c07 resptree R roR good roR 2"}, {"c07 resptree R roR good roR 3"}, {"c07 resptree R roR good roR 4"},
+		{"c07 treemarshal R roX good", "c07 sendroster roX 3"}, {"c07 treemarshal R roX good", "c07 sendroster roX 2"},
 	} {
 		for _, m := range []string{"direct", "wire-local"} {
 			yield(&h.Case{Class: "corpus", Ops: append([]string{"c07 state idle " + m}, w...)})
